@@ -262,4 +262,15 @@ def sysStep (y : Sys) : Op → Sys × Ans
     | some (_, k, cv) =>
       ({ y with readers := y.readers.filter (fun e => e.1 != r) }, .pts (y.st.readFinish k cv))
 
+/-- trace of the schedule machine on a list of operations -/
+def sysRun : Sys → List Op → List (Op × Ans)
+  | _, [] => []
+  | y, op :: rest => let (y', a) := sysStep y op; (op, a) :: sysRun y' rest
+
+/-- the operations that split a read into its two phases -/
+def Op.twoPhase : Op → Bool
+  | .readBegin .. => true
+  | .readEnd _ => true
+  | _ => false
+
 end Influx.Conc
